@@ -16,38 +16,33 @@ func findSlotStmtIndex(stmts []Statement, slotName string) int {
 	return -1
 }
 
-// findSlotStmt finds the slot placeholder with the given name among the
+// findSlotStmts finds every placeholder with the given name among the
 // statements and, unlike findSlotStmtIndex, inside the blocks nested in them
-// (a placeholder may sit inside an @if or a loop of the component)
-func findSlotStmt(stmts []Statement, slotName string) *SlotStmt {
+// (a placeholder may sit inside an @if or a loop of the component, and a
+// component may show the same slot at several places)
+func findSlotStmts(stmts []Statement, slotName string) []*SlotStmt {
+	var slots []*SlotStmt
+
 	for _, stmt := range stmts {
 		switch stmt := stmt.(type) {
 		case *SlotStmt:
 			if stmt.Name.Value == slotName {
-				return stmt
+				slots = append(slots, stmt)
 			}
 		case *IfStmt:
-			if slot := findSlotStmt(stmt.Stmts(), slotName); slot != nil {
-				return slot
-			}
+			slots = append(slots, findSlotStmts(stmt.Stmts(), slotName)...)
 		case *ForStmt:
-			if slot := findSlotStmt(stmt.Stmts(), slotName); slot != nil {
-				return slot
-			}
+			slots = append(slots, findSlotStmts(stmt.Stmts(), slotName)...)
 		case *EachStmt:
-			if slot := findSlotStmt(stmt.Stmts(), slotName); slot != nil {
-				return slot
-			}
+			slots = append(slots, findSlotStmts(stmt.Stmts(), slotName)...)
 
 			if stmt.Alternative != nil {
-				if slot := findSlotStmt(stmt.Alternative.Statements, slotName); slot != nil {
-					return slot
-				}
+				slots = append(slots, findSlotStmts(stmt.Alternative.Statements, slotName)...)
 			}
 		}
 	}
 
-	return nil
+	return slots
 }
 
 func findDuplicateSlot(slots []*SlotStmt) (string, int) {
